@@ -7,33 +7,48 @@ import GoaktVerif.Lemmas.C45.NetBasics
 import GoaktVerif.Lemmas.C45.Nodes
 import GoaktVerif.Lemmas.C45.Sink
 import GoaktVerif.Lemmas.C45.Batch
+import GoaktVerif.Lemmas.C45.PMapStep
 
 namespace GoaktVerif.C45
 open GoaktVerif.Model.C45
 
 def middleOK : Node → Bool
-  | .flow _ _ _ | .fused _ _ _ | .batch _ _ _ => true
+  | .flow _ _ _ | .fused _ _ _ | .batch _ _ _ | .pmap true _ _ _ _ _ => true
   | _ => false
 
 def MidInv : Node → List Down → List Down → Prop
   | .flow _ st s, ins, outs => FlowInv st s ins outs
   | .fused _ fs s, ins, outs => FusedInv fs s ins outs
   | .batch _ n s, ins, outs => BatchInv n s ins outs
+  | .pmap true _ k bad e s, ins, outs => PInv k bad e s ins outs
   | _, _, _ => False
 
 def midF : Node → SemFn
   | .flow _ st _ => xfRun st {}
   | .fused _ fs _ => fusedRun fs
   | .batch _ n _ => GoaktVerif.Spec.C45.stageSem (.batch n)
+  | .pmap _ _ k bad e _ => parRun k bad e
   | _ => fun xs => (xs, none)
 
-theorem MidInv.specM {nd : Node} {ins outs : List Down} (h : MidInv nd ins outs) : SpecM (midF nd) ins outs := by
+/-- parallel stages: their error clause needs homogeneous ideal inputs -/
+def isPar : Node → Bool
+  | .pmap _ _ _ _ _ _ => true
+  | _ => false
+
+theorem MidInv.specM {P : List Val → Prop} {nd : Node} {ins outs : List Down} (h : MidInv nd ins outs)
+    (hp : (∀ X, P X → Homog X) ∨ isPar nd = false) : SpecM P (midF nd) ins outs := by
   cases nd with
   | flow c st s => exact FlowInv.specM h
   | fused c fs s => exact FusedInv.specM h
   | src s => exact h.elim
   | batch c n s => exact BatchInv.specM h
-  | pmap o w k b e s => exact h.elim
+  | pmap o w k b e s =>
+    cases o with
+    | false => exact h.elim
+    | true =>
+      rcases hp with hp | hp
+      · exact SpecM.weaken hp (PInv.specM k b e h)
+      · simp [isPar] at hp
   | sink c s => exact h.elim
 
 /-- stepping keeps the kind and the semantic function of a node -/
@@ -41,7 +56,19 @@ theorem step_midF (nd : Node) (ev : Ev) : midF (nd.step ev).1 = midF nd ∧ midd
   unfold Node.step
   split
   · exact ⟨rfl, rfl⟩
-  · cases nd <;> exact ⟨rfl, rfl⟩
+  · cases nd with
+    | pmap o w k b e s => cases o <;> exact ⟨rfl, rfl⟩
+    | src s => exact ⟨rfl, rfl⟩
+    | flow c st s => exact ⟨rfl, rfl⟩
+    | fused c fs s => exact ⟨rfl, rfl⟩
+    | batch c n s => exact ⟨rfl, rfl⟩
+    | sink c s => exact ⟨rfl, rfl⟩
+
+theorem step_isPar (nd : Node) (ev : Ev) : isPar (nd.step ev).1 = isPar nd := by
+  unfold Node.step
+  split
+  · rfl
+  · cases nd <;> rfl
 
 theorem maybeReq_no_cancel (cfg : Cfg) (s : FlowSt) : Up.cancel ∉ (s.maybeReq cfg).2 := by
   unfold FlowSt.maybeReq
@@ -146,7 +173,13 @@ theorem MidInv.step_down {nd : Node} {ins outs : List Down} (d : Down) (h : MidI
     have ha' : s.alive = true := ha
     simp only [Node.step, Node.alive, ha', Bool.not_true, Bool.false_eq_true, if_false]
     exact BatchInv.step_down c d h ha' hw
-  | pmap o w k b e s => exact h.elim
+  | pmap o w k b e s =>
+    cases o with
+    | false => exact h.elim
+    | true =>
+      have ha' : s.alive = true := ha
+      simp only [Node.step, Node.alive, ha', Bool.not_true, Bool.false_eq_true, if_false]
+      exact PInv.step_down k b e w d h ha' hw
   | sink c s => exact h.elim
 
 theorem MidInv.step_req {nd : Node} {ins outs : List Down} (n : Int) (h : MidInv nd ins outs)
@@ -166,101 +199,81 @@ theorem MidInv.step_req {nd : Node} {ins outs : List Down} (n : Int) (h : MidInv
     have ha' : s.alive = true := ha
     simp only [Node.step, Node.alive, ha', Bool.not_true, Bool.false_eq_true, if_false]
     exact BatchInv.step_req c n h ha'
-  | pmap o w k b e s => exact h.elim
+  | pmap o w k b e s =>
+    cases o with
+    | false => exact h.elim
+    | true =>
+      have ha' : s.alive = true := ha
+      simp only [Node.step, Node.alive, ha', Bool.not_true, Bool.false_eq_true, if_false]
+      exact PInv.step_req k b e w n h
   | sink c s => exact h.elim
 
 theorem MidInv.wfOut {nd : Node} {ins outs : List Down} (h : MidInv nd ins outs) : wf outs = true :=
-  (MidInv.specM h).wfOut
+  (MidInv.specM (P := Homog) h (Or.inl fun _ hX => hX)).wfOut
 
-/-- nodes of the covered kinds dispatch no worker tasks and die when they send a cancel upstream -/
+/-- a worker's reply at an ordered parallel stage -/
+theorem MidInv.step_result {o : Bool} {w : Nat} {k : Int} {b : Option Int} {e : Err} {s : PMapSt}
+    {ins outs : List Down} (t : Nat × Val) (h : MidInv (.pmap o w k b e s) ins outs) (ha : s.alive = true)
+    (ht : t ∈ s.outst) :
+    MidInv ((Node.pmap o w k b e s).step (.result t.1 (parFn k b e t.2))).1 ins
+      (outs ++ ((Node.pmap o w k b e s).step (.result t.1 (parFn k b e t.2))).2.down) := by
+  cases o with
+  | false => exact h.elim
+  | true =>
+    simp only [Node.step, Node.alive, ha, Bool.not_true, Bool.false_eq_true, if_false]
+    exact PInv.step_result k b e w t h ha ht
+
+theorem pmap_cancel_dies (o : Bool) (w : Nat) (s : PMapSt) (ev : Ev)
+    (h : Up.cancel ∈ (pmapStep o w s ev).2.up) : (pmapStep o w s ev).1.alive = false := by
+  cases ev with
+  | wire => simp [pmapStep] at h
+  | flush => simp [pmapStep] at h
+  | up u =>
+    cases u with
+    | req n => simp only [pmapStep] at h; split at h <;> simp at h
+    | cancel => simp [pmapStep]
+  | down d =>
+    cases d with
+    | elem v => cases v <;> simp [pmapStep] at h ⊢
+    | complete => simp only [pmapStep] at h; split at h <;> simp at h
+    | error er => simp [pmapStep]
+  | result q r =>
+    cases r with
+    | error er => simp [pmapStep]
+    | ok v =>
+      exfalso
+      simp only [pmapStep] at h
+      split at h <;> (split at h <;> simp at h)
+
+/-- nodes of the covered kinds stop in the step in which they send a cancel upstream -/
 theorem covered_step (nd : Node) (ev : Ev)
-    (hk : middleOK nd = true ∨ (∃ s, nd = .src s) ∨ (∃ c s, nd = .sink c s)) :
-    (nd.step ev).2.tasks = [] ∧ (Up.cancel ∈ (nd.step ev).2.up → (nd.step ev).1.alive = false) := by
+    (_hk : middleOK nd = true ∨ (∃ s, nd = .src s) ∨ (∃ c s, nd = .sink c s)) :
+    Up.cancel ∈ (nd.step ev).2.up → (nd.step ev).1.alive = false := by
   unfold Node.step
   by_cases ha : nd.alive = true
   · simp only [ha, Bool.not_true, Bool.false_eq_true, if_false]
     cases nd with
-    | flow c st s =>
-      refine ⟨?_, fun h => flow_cancel_dies c st s ev h⟩
-      cases ev with
-      | wire => rfl
-      | flush => rfl
-      | result q r => rfl
-      | up u => cases u <;> rfl
-      | down d =>
-        cases d with
-        | elem v => simp only [flowStep]; split <;> rfl
-        | complete => simp only [flowStep]; split <;> rfl
-        | error e => rfl
-    | fused c fs s =>
-      refine ⟨?_, fun h => fused_cancel_dies c fs s ev h⟩
-      cases ev with
-      | wire => rfl
-      | flush => rfl
-      | result q r => rfl
-      | up u =>
-        cases u with
-        | req n => simp only [fusedStep]; split <;> rfl
-        | cancel => rfl
-      | down d =>
-        cases d with
-        | elem v => simp only [fusedStep]; split <;> (try split) <;> rfl
-        | complete => rfl
-        | error e => rfl
+    | flow c st s => exact flow_cancel_dies c st s ev
+    | fused c fs s => exact fused_cancel_dies c fs s ev
     | src s =>
-      refine ⟨?_, ?_⟩
-      · cases ev with
-        | up u =>
-          cases u with
-          | req n => simp only [srcStep]; split <;> (try split) <;> rfl
-          | cancel => rfl
-        | wire => rfl
-        | flush => rfl
-        | result q r => rfl
-        | down d => rfl
-      · intro h
-        cases ev with
-        | up u =>
-          cases u with
-          | req n => simp only [srcStep] at h; split at h <;> (try split at h) <;> simp at h
-          | cancel => simp [srcStep] at h
-        | wire => simp [srcStep] at h
-        | flush => simp [srcStep] at h
-        | result q r => simp [srcStep] at h
-        | down d => simp [srcStep] at h
-    | sink c s =>
-      refine ⟨?_, fun h => sink_cancel_dies c s ev h⟩
+      intro h
       cases ev with
-      | wire => rfl
-      | flush => rfl
-      | result q r => rfl
-      | up u => rfl
-      | down d =>
-        cases d with
-        | elem v => simp only [sinkStep]; split <;> rfl
-        | complete => rfl
-        | error e => rfl
-    | batch c n s =>
-      refine ⟨?_, fun h => batch_cancel_dies c n s ev h⟩
-      cases ev with
-      | wire => rfl
-      | flush => rfl
-      | result q r => rfl
       | up u =>
         cases u with
-        | req k => simp only [batchStep]; split <;> rfl
-        | cancel => rfl
-      | down d =>
-        cases d with
-        | elem v => cases v <;> rfl
-        | complete => simp only [batchStep]; split <;> rfl
-        | error e => rfl
-    | pmap o w k b e s => rcases hk with h | ⟨s', h⟩ | ⟨c', s', h⟩ <;> simp [middleOK] at h
+        | req n => simp only [srcStep] at h; split at h <;> (try split at h) <;> simp at h
+        | cancel => simp [srcStep] at h
+      | wire => simp [srcStep] at h
+      | flush => simp [srcStep] at h
+      | result q r => simp [srcStep] at h
+      | down d => simp [srcStep] at h
+    | sink c s => exact sink_cancel_dies c s ev
+    | batch c n s => exact batch_cancel_dies c n s ev
+    | pmap o w k b e s => exact pmap_cancel_dies o w s ev
   · simp [ha]
 
 /-! ### the invariant -/
 
-structure GInv (input : List Val) (net : Net) : Prop where
+structure GInv (P : List Val → Prop) (input : List Val) (net : Net) : Prop where
   len : net.links.length + 1 = net.nodes.length
   two : 2 ≤ net.nodes.length
   notasks : net.tasks = []
@@ -269,11 +282,13 @@ structure GInv (input : List Val) (net : Net) : Prop where
   src : ∃ s, net.nodes[0]? = some (.src s) ∧ Approx (hist net 0) input [] ∧
     (net.aliveAt 1 = true → SrcInv input s (hist net 0))
   mid : ∀ i nd, 0 < i → i + 1 < net.nodes.length → net.nodes[i]? = some nd →
-    middleOK nd = true ∧ SpecM (midF nd) (insOf net i) (hist net i) ∧
+    middleOK nd = true ∧ SpecM P (midF nd) (insOf net i) (hist net i) ∧
     (net.aliveAt (i + 1) = true → MidInv nd (insOf net i) (hist net i))
   sink : ∃ c s, net.nodes[net.nodes.length - 1]? = some (.sink c s) ∧
     SinkInv s (insOf net (net.nodes.length - 1))
   cancel : ∀ j, Up.cancel ∈ upq net j → net.aliveAt (j + 1) = false
+  /-- parallel stages need homogeneous ideal inputs for their error clause -/
+  par : (∀ X, P X → Homog X) ∨ ∀ (j : Nat) (nd : Node), net.nodes[j]? = some nd → isPar nd = false
 
 theorem aliveAt_set (net : Net) (i j : Nat) (nd : Node) (hi : i < net.nodes.length) :
     ({ net with nodes := net.nodes.set i nd } : Net).aliveAt j = if j = i then nd.alive else net.aliveAt j := by
@@ -307,7 +322,7 @@ structure Frame (net net' : Net) (k : Nat) (nd : Node) (ev : Ev) (dpos : Nat →
     else hist net j
   pos : ∀ j, pos net' j = dpos j
   upq : ∀ j, ∀ x ∈ upq net' j, x ∈ upq net j ∨ (j + 1 = k ∧ x ∈ (nd.step ev).2.up)
-  tasks : net'.tasks = net.tasks ++ (nd.step ev).2.tasks.map (fun t => (k, t.1, t.2))
+  tasks : net'.tasks = net.tasks
 
 /-- a net that differs from `net` only in the `pos`/`upq` of its links -/
 structure SameBut (net net1 : Net) (dpos : Nat → Nat) : Prop where
@@ -363,29 +378,29 @@ theorem insOf_frame {net net' : Net} {k : Nat} {nd : Node} {ev : Ev} {dpos : Nat
   · rfl
 
 /-- global bookkeeping: the invariant of the stepped net follows from the frame and the stepping node's own obligations -/
-theorem GInv.of_frame {input : List Val} {net net' : Net} {k : Nat} {nd : Node} {ev : Ev} {dpos : Nat → Nat}
-    (h : GInv input net) (hf : Frame net net' k nd ev dpos) (hn : net.nodes[k]? = some nd)
+theorem GInv.of_frame {P : List Val → Prop} {input : List Val} {net net' : Net} {k : Nat} {nd : Node} {ev : Ev} {dpos : Nat → Nat}
+    (h : GInv P input net) (hf : Frame net net' k nd ev dpos) (hn : net.nodes[k]? = some nd)
     (ha : net.aliveAt k = true)
     (hle : ∀ j, dpos j ≤ (hist net j).length)
     (hins : ∀ j, j ≠ k → 1 ≤ j → (hist net (j - 1)).take (dpos (j - 1)) = insOf net j)
-    (hnotask : (nd.step ev).2.tasks = [])
+    (_hnotask : True)
     (hcancelOut : Up.cancel ∈ (nd.step ev).2.up → (nd.step ev).1.alive = false)
     (hwf : wf (hist net' k) = true)
     (hsrc : k = 0 → ∀ s, nd = .src s → ∃ s', (nd.step ev).1 = .src s' ∧ Approx (hist net' 0) input [] ∧
         (net'.aliveAt 1 = true → SrcInv input s' (hist net' 0)))
     (hmid : 0 < k → k + 1 < net.nodes.length →
-        SpecM (midF nd) ((hist net (k - 1)).take (dpos (k - 1))) (hist net' k) ∧
+        SpecM P (midF nd) ((hist net (k - 1)).take (dpos (k - 1))) (hist net' k) ∧
         (net'.aliveAt (k + 1) = true → MidInv (nd.step ev).1 ((hist net (k - 1)).take (dpos (k - 1))) (hist net' k)))
     (hsink : k + 1 = net.nodes.length → ∀ c s, nd = .sink c s → ∃ s', (nd.step ev).1 = .sink c s' ∧
         SinkInv s' ((hist net (k - 1)).take (dpos (k - 1)))) :
-    GInv input net' := by
+    GInv P input net' := by
   have hk : k < net.nodes.length := by
     apply Classical.byContradiction; intro hge
     rw [List.getElem?_eq_none (by omega)] at hn; simp at hn
   have hother : ∀ j, j ≠ k → hist net' j = hist net j := by
     intro j hj; rw [hf.hist]; simp [hj]
-  refine ⟨by rw [hf.llen, hf.nlen]; exact h.len, by rw [hf.nlen]; exact h.two, ?_, ?_, ?_, ?_, ?_, ?_, ?_⟩
-  · rw [hf.tasks, h.notasks, hnotask]; rfl
+  refine ⟨by rw [hf.llen, hf.nlen]; exact h.len, by rw [hf.nlen]; exact h.two, ?_, ?_, ?_, ?_, ?_, ?_, ?_, ?_⟩
+  · rw [hf.tasks, h.notasks]
   · intro j
     rw [hf.pos, hf.hist]
     split
@@ -451,5 +466,24 @@ theorem GInv.of_frame {input : List Val} {net net' : Net} {k : Nat} {nd : Node} 
       · rw [hjk] at this; rw [ha] at this; simp at this
       · simp [hjk, this]
     · rw [hf.alive]; simp [h1]; exact hcancelOut h2
+  · -- node kinds are static
+    rcases h.par with hp | hp
+    · exact Or.inl hp
+    · refine Or.inr fun j nd' hn' => ?_
+      rw [hf.nodes] at hn'
+      by_cases hjk : j = k
+      · simp only [hjk, if_true] at hn'
+        have : nd' = (nd.step ev).1 := (Option.some.inj hn').symm
+        rw [this, step_isPar]; exact hp k nd hn
+      · simp only [hjk, if_false] at hn'
+        exact hp j nd' hn'
+
+/-- the condition `MidInv.specM` needs, for the node at index `k` -/
+theorem GInv.par_node {P : List Val → Prop} {input : List Val} {net : Net} (h : GInv P input net) {k : Nat} {nd : Node}
+    (hn : net.nodes[k]? = some nd) (ev : Ev) :
+    ((∀ X, P X → Homog X) ∨ isPar nd = false) ∧ ((∀ X, P X → Homog X) ∨ isPar (nd.step ev).1 = false) := by
+  rcases h.par with hp | hp
+  · exact ⟨Or.inl hp, Or.inl hp⟩
+  · exact ⟨Or.inr (hp k nd hn), Or.inr (by rw [step_isPar]; exact hp k nd hn)⟩
 
 end GoaktVerif.C45
